@@ -141,193 +141,288 @@ Definition closer_of (p : nat * nat) := mkT (C0 (snd p)) [] [].
    environment's choice [c], and the event the harness sees ([None] = internal).  [None] =
    the action is not enabled (blocked on the lock or on a channel, goroutine finished, or the
    choice does not fit the action). *)
+Definition is_tau (c : choice) : bool := match c with CNone => true | _ => false end.
+Definition act := state -> nat -> thread -> choice -> option (state * option vev).
+(* internal move of goroutine [t] to program counter [p] *)
+Definition goto (s : state) (t : nat) (th : thread) (p : pc) : option (state * option vev) :=
+  Some (set_thr s t (set_pc th p), None).
+(* the operation is over with result [r]; returning it to the caller is the next (local) step *)
+Definition ret (s : state) (t : nat) (th : thread) (r : result) := goto s t th (Ret r).
+(* an error of prepare: returned by Exec/Query, swallowed by QueryRow (`return &sql.Row{}`) *)
+Definition perr (th : thread) (r : result) : result := if cur_evict th then r else RPanic.
+
+(* Each program counter's action is its own definition [a_<pc>]; [step_th] dispatches. *)
+Definition a_Idle : act := fun s t th c =>
+  if is_tau c then
+    match t_ops th with
+    | [] => None
+    | OExec _ _ _ :: _ => Some (set_thr s t (set_pc th P0), Some (VStart t))
+    | OReset :: _ => Some (set_thr s t (set_pc th R0), Some (VStart t))
+    | OClose :: _ => Some (set_thr s t (set_pc th K0), Some (VStart t))
+    end
+  else None.
+
+(* db.Mux.RLock() *)
+Definition a_P0 : act := fun s t th c =>
+  if is_tau c then match s_w s with
+    | None => Some (set_thr (w_lock s None (S (s_r s))) t (set_pc th P1), None)
+    | Some _ => None end else None.
+
+(* stmt, ok := db.Stmts[query]; ok && (!stmt.Transaction || isTransaction); db.Mux.RUnlock() *)
+Definition a_P1 : act := fun s t th c =>
+  let q := cur_q th in
+  let tx := cur_tx th in
+  if is_tau c then
+    let s1 := w_lock s (s_w s) (pred (s_r s)) in
+    match mlookup (s_map s) q with
+    | Some e => if servable (ent s e) tx
+                then Some (set_thr s1 t (set_pc th (P3 e)), None)
+                else Some (set_thr s1 t (set_pc th P5), None)
+    | None => Some (set_thr s1 t (set_pc th P5), None)
+    end else None.
+
+(* <-stmt.prepared; if stmt.prepareErr != nil { return err }; return *stmt *)
+Definition a_P3 (e : nat) : act := fun s t th c =>
+  if is_tau c then
+    if e_done (ent s e) then
+      if e_err (ent s e) then ret s t th (perr th RErrPrep)
+      else match e_stmt (ent s e) with
+           | Some st => goto s t th (X0 st)
+           | None => ret s t th RNilStmt
+           end
+    else None else None.
+
+(* db.Mux.Lock() *)
+Definition a_P5 : act := fun s t th c =>
+  if is_tau c then if lock_free s then Some (set_thr (w_lock s (Some t) 0) t (set_pc th P6), None)
+    else None else None.
+
+(* double check; nil-map test; publish the in-progress entry; db.Mux.Unlock() *)
+Definition a_P6 : act := fun s t th c =>
+  let q := cur_q th in
+  let tx := cur_tx th in
+  if is_tau c then
+    let s1 := w_lock s None (s_r s) in
+    match mlookup (s_map s) q with
+    | Some e =>
+      if servable (ent s e) tx then Some (set_thr s1 t (set_pc th (P3 e)), None)
+      else
+        let e' := length (s_ents s) in
+        let s2 := w_ents s1 (s_ents s ++ [mkE q tx None false false]) in
+        let s3 := w_map s2 (option_map (insert q e') (s_map s)) in
+        let s4 := w_ghost s3 (s_calls s) (s_fails s) (s_evicts s) (s_upg s ++ [q])
+                          (s_cuts s) (s_stolen s) (s_everclosed s) in
+        Some (set_thr s4 t (set_pc th (P9 e')), None)
+    | None =>
+      match s_map s with
+      | None => ret s1 t th (perr th RErrInvalid)
+      | Some m =>
+        let e' := length (s_ents s) in
+        let s2 := w_ents s1 (s_ents s ++ [mkE q tx None false false]) in
+        let s3 := w_map s2 (Some (insert q e' m)) in
+        Some (set_thr s3 t (set_pc th (P9 e')), None)
+      end
+    end else None.
+
+(* conn.PrepareContext(ctx, query): call *)
+Definition a_P9 (e : nat) : act := fun s t th c =>
+  let q := cur_q th in
+  let tx := cur_tx th in
+  if is_tau c then
+    let s1 := w_ghost s (s_calls s ++ [(q, tx)]) (s_fails s) (s_evicts s) (s_upg s)
+                      (s_cuts s) (s_stolen s) (s_everclosed s) in
+    Some (set_thr s1 t (set_pc th (P9w e)), Some (VPrepCall t q tx))
+    else None.
+
+(* conn.PrepareContext: return *)
+Definition a_P9w (e : nat) : act := fun s t th c =>
+  let q := cur_q th in
+  let tx := cur_tx th in
+  match c with
+  | CPrepOk =>
+    let st := s_nstmt s in
+    let s1 := w_drv s (S st) (s_prep s ++ [(st, q, tx)]) (s_closed s) in
+    Some (set_thr s1 t (set_pc th (P10 e st)), Some (VPrepRet t true))
+  | CPrepFail =>
+    let en := ent s e in
+    let s1 := set_ent s e (mkE (e_q en) (e_tx en) (e_stmt en) true (e_done en)) in
+    let s2 := w_ghost s1 (s_calls s) (s_fails s ++ [q]) (s_evicts s) (s_upg s)
+                      (s_cuts s) (s_stolen s) (s_everclosed s) in
+    Some (set_thr s2 t (set_pc th (P11 e)), Some (VPrepRet t false))
+  | _ => None
+  end.
+
+(* db.Mux.Lock(); cacheStmt.Stmt = stmt; db.Mux.Unlock() *)
+Definition a_P10 (e : nat) (st : nat) : act := fun s t th c =>
+  if is_tau c then if lock_free s then Some (set_thr (w_lock s (Some t) 0) t (set_pc th (P10b e st)), None)
+    else None else None.
+
+Definition a_P10b (e : nat) (st : nat) : act := fun s t th c =>
+  if is_tau c then
+    let en := ent s e in
+    let s1 := set_ent (w_lock s None (s_r s)) e (mkE (e_q en) (e_tx en) (Some st) (e_err en) (e_done en)) in
+    Some (set_thr s1 t (set_pc th (P10c e st)), None)
+    else None.
+
+(* deferred close(cacheStmt.prepared); return cacheStmt *)
+Definition a_P10c (e : nat) (st : nat) : act := fun s t th c =>
+  if is_tau c then
+    let en := ent s e in
+    let s1 := set_ent s e (mkE (e_q en) (e_tx en) (e_stmt en) (e_err en) true) in
+    Some (set_thr s1 t (set_pc th (X0 st)), None)
+    else None.
+
+(* cacheStmt.prepareErr = err; db.Mux.Lock(); delete(db.Stmts, query); db.Mux.Unlock() *)
+Definition a_P11 (e : nat) : act := fun s t th c =>
+  if is_tau c then if lock_free s then Some (set_thr (w_lock s (Some t) 0) t (set_pc th (P11b e)), None)
+    else None else None.
+
+Definition a_P11b (e : nat) : act := fun s t th c =>
+  let q := cur_q th in
+  if is_tau c then
+    let s1 := w_lock s None (s_r s) in
+    let theft := match mlookup (s_map s) q with Some e' => negb (e' =? e) | None => false end in
+    let s2 := w_map s1 (option_map (remove_key q) (s_map s)) in
+    let s3 := w_ghost s2 (s_calls s) (s_fails s) (s_evicts s) (s_upg s)
+                      (s_cuts s) (s_stolen s || theft) (s_everclosed s) in
+    Some (set_thr s3 t (set_pc th (P11c e)), None)
+    else None.
+
+Definition a_P11c (e : nat) : act := fun s t th c =>
+  if is_tau c then
+    let en := ent s e in
+    let s1 := set_ent s e (mkE (e_q en) (e_tx en) (e_stmt en) (e_err en) true) in
+    ret s1 t th (perr th RErrPrep)
+    else None.
+
+(* stmt.ExecContext / tx.Tx.StmtContext(ctx, stmt.Stmt).ExecContext: call *)
+Definition a_X0 (st : nat) : act := fun s t th c =>
+  let tx := cur_tx th in
+  if is_tau c then
+    if negb tx && memb st (s_closed s) then ret s t th RErrClosed
+    else Some (set_thr s t (set_pc th (X1 st)), Some (VExecCall t))
+    else None.
+
+(* the driver returns *)
+Definition a_X1 (st : nat) : act := fun s t th c =>
+  match c with
+  | CExecOk | CExecErr | CExecBad => Some (set_thr s t (set_pc th (X1r st c)), Some (VExecRet t c))
+  | _ => None
+  end.
+
+Definition a_X1r (st : nat) (o : choice) : act := fun s t th c =>
+  if is_tau c then
+    match o with
+    | CExecBad => if cur_evict th then goto s t th (X2 st) else ret s t th RErrBad
+    | CExecErr => ret s t th RErrOther
+    | _ => ret s t th ROk
+    end else None.
+
+(* errors.Is(err, driver.ErrBadConn): db.Mux.Lock(); defer Unlock; go stmt.Close(); delete(db.Stmts, query) *)
+Definition a_X2 (st : nat) : act := fun s t th c =>
+  if is_tau c then if lock_free s then Some (set_thr (w_lock s (Some t) 0) t (set_pc th (X2b st)), None)
+    else None else None.
+
+Definition a_X2b (st : nat) : act := fun s t th c =>
+  let q := cur_q th in
+  if is_tau c then
+    let s1 := w_lock s None (s_r s) in
+    let theft := match mlookup (s_map s) q with
+                 | Some e' => negb (option_eqb Nat.eqb (e_stmt (ent s e')) (Some st))
+                 | None => false end in
+    let s2 := w_map s1 (option_map (remove_key q) (s_map s)) in
+    let s3 := w_ghost s2 (s_calls s) (s_fails s) (s_evicts s ++ [q]) (s_upg s)
+                      (s_cuts s) (s_stolen s || theft) (s_everclosed s) in
+    let s4 := spawn (set_thr s3 t (set_pc th (Ret RErrBad))) [mkT (D0 st) [] []] in
+    Some (s4, None)
+    else None.
+
+(* Reset: Lock; closer per entry; Stmts = make(map); Unlock *)
+Definition a_R0 : act := fun s t th c =>
+  if is_tau c then if lock_free s then Some (set_thr (w_lock s (Some t) 0) t (set_pc th R1), None)
+    else None else None.
+
+Definition a_R1 : act := fun s t th c =>
+  if is_tau c then
+    let s1 := w_lock s None (s_r s) in
+    let cl := match s_map s with Some m => map closer_of m | None => [] end in
+    let s2 := w_map s1 (Some []) in
+    let s3 := w_ghost s2 (s_calls s) (s_fails s) (s_evicts s) (s_upg s)
+                      (S (s_cuts s)) (s_stolen s) (s_everclosed s) in
+    Some (spawn (set_thr s3 t (set_pc th (Ret ROk))) cl, None)
+    else None.
+
+(* Close: Lock; closer per entry; Stmts = nil; Unlock *)
+Definition a_K0 : act := fun s t th c =>
+  if is_tau c then if lock_free s then Some (set_thr (w_lock s (Some t) 0) t (set_pc th K1), None)
+    else None else None.
+
+Definition a_K1 : act := fun s t th c =>
+  if is_tau c then
+    let s1 := w_lock s None (s_r s) in
+    let cl := match s_map s with Some m => map closer_of m | None => [] end in
+    let s2 := w_map s1 None in
+    let s3 := w_ghost s2 (s_calls s) (s_fails s) (s_evicts s) (s_upg s)
+                      (S (s_cuts s)) (s_stolen s) true in
+    Some (spawn (set_thr s3 t (set_pc th (Ret ROk))) cl, None)
+    else None.
+
+(* closer goroutine: <-s.prepared; if s.Stmt != nil { s.Close() } *)
+Definition a_C0 (e : nat) : act := fun s t th c =>
+  if is_tau c then if e_done (ent s e) then goto s t th (C1 e) else None else None.
+
+Definition a_C1 (e : nat) : act := fun s t th c =>
+  if is_tau c then
+    match e_stmt (ent s e) with
+    | Some st => Some (set_thr (w_drv s (s_nstmt s) (s_prep s) (s_closed s ++ [st])) t (set_pc th Idle), None)
+    | None => goto s t th Idle
+    end else None.
+
+(* go stmt.Close() *)
+Definition a_D0 (st : nat) : act := fun s t th c =>
+  if is_tau c then
+    Some (set_thr (w_drv s (s_nstmt s) (s_prep s) (s_closed s ++ [st])) t (set_pc th Idle), None)
+    else None.
+
+(* return to the caller *)
+Definition a_Ret (r : result) : act := fun s t th c =>
+  if is_tau c then Some (set_thr s t (finish th r), Some (VEnd t r)) else None.
+
+Definition step_th (s : state) (t : nat) (th : thread) (c : choice) : option (state * option vev) :=
+  match t_pc th with
+  | Idle => a_Idle s t th c
+  | P0 => a_P0 s t th c
+  | P1 => a_P1 s t th c
+  | P3 e => a_P3 e s t th c
+  | P5 => a_P5 s t th c
+  | P6 => a_P6 s t th c
+  | P9 e => a_P9 e s t th c
+  | P9w e => a_P9w e s t th c
+  | P10 e st => a_P10 e st s t th c
+  | P10b e st => a_P10b e st s t th c
+  | P10c e st => a_P10c e st s t th c
+  | P11 e => a_P11 e s t th c
+  | P11b e => a_P11b e s t th c
+  | P11c e => a_P11c e s t th c
+  | X0 st => a_X0 st s t th c
+  | X1 st => a_X1 st s t th c
+  | X1r st o => a_X1r st o s t th c
+  | X2 st => a_X2 st s t th c
+  | X2b st => a_X2b st s t th c
+  | R0 => a_R0 s t th c
+  | R1 => a_R1 s t th c
+  | K0 => a_K0 s t th c
+  | K1 => a_K1 s t th c
+  | C0 e => a_C0 e s t th c
+  | C1 e => a_C1 e s t th c
+  | D0 st => a_D0 st s t th c
+  | Ret r => a_Ret r s t th c
+  end.
+
 Definition stepL (s : state) (t : nat) (c : choice) : option (state * option vev) :=
   match nth_error (s_thr s) t with
   | None => None
-  | Some th =>
-    let q := cur_q th in
-    let tx := cur_tx th in
-    let tau := match c with CNone => true | _ => false end in
-    let go p := Some (set_thr s t (set_pc th p), None) in
-    let fin s' r := Some (set_thr s' t (set_pc th (Ret r)), None) in
-    (* an error of prepare: returned by Exec/Query, swallowed by QueryRow (`return &sql.Row{}`) *)
-    let perr r := if cur_evict th then r else RPanic in
-    match t_pc th with
-    | Idle =>
-      if tau then
-        match t_ops th with
-        | [] => None
-        | OExec _ _ _ :: _ => Some (set_thr s t (set_pc th P0), Some (VStart t))
-        | OReset :: _ => Some (set_thr s t (set_pc th R0), Some (VStart t))
-        | OClose :: _ => Some (set_thr s t (set_pc th K0), Some (VStart t))
-        end
-      else None
-    (* db.Mux.RLock() *)
-    | P0 => if tau then match s_w s with
-            | None => Some (set_thr (w_lock s None (S (s_r s))) t (set_pc th P1), None)
-            | Some _ => None end else None
-    (* stmt, ok := db.Stmts[query]; ok && (!stmt.Transaction || isTransaction); db.Mux.RUnlock() *)
-    | P1 => if tau then
-            let s1 := w_lock s (s_w s) (pred (s_r s)) in
-            match mlookup (s_map s) q with
-            | Some e => if servable (ent s e) tx
-                        then Some (set_thr s1 t (set_pc th (P3 e)), None)
-                        else Some (set_thr s1 t (set_pc th P5), None)
-            | None => Some (set_thr s1 t (set_pc th P5), None)
-            end else None
-    (* <-stmt.prepared; if stmt.prepareErr != nil { return err }; return *stmt *)
-    | P3 e => if tau then
-              if e_done (ent s e) then
-                if e_err (ent s e) then fin s (perr RErrPrep)
-                else match e_stmt (ent s e) with
-                     | Some st => go (X0 st)
-                     | None => fin s RNilStmt
-                     end
-              else None else None
-    (* db.Mux.Lock() *)
-    | P5 => if tau then if lock_free s then Some (set_thr (w_lock s (Some t) 0) t (set_pc th P6), None)
-            else None else None
-    (* double check; nil-map test; publish the in-progress entry; db.Mux.Unlock() *)
-    | P6 => if tau then
-            let s1 := w_lock s None (s_r s) in
-            match mlookup (s_map s) q with
-            | Some e =>
-              if servable (ent s e) tx then Some (set_thr s1 t (set_pc th (P3 e)), None)
-              else
-                let e' := length (s_ents s) in
-                let s2 := w_ents s1 (s_ents s ++ [mkE q tx None false false]) in
-                let s3 := w_map s2 (option_map (insert q e') (s_map s)) in
-                let s4 := w_ghost s3 (s_calls s) (s_fails s) (s_evicts s) (s_upg s ++ [q])
-                                  (s_cuts s) (s_stolen s) (s_everclosed s) in
-                Some (set_thr s4 t (set_pc th (P9 e')), None)
-            | None =>
-              match s_map s with
-              | None => fin s1 (perr RErrInvalid)
-              | Some m =>
-                let e' := length (s_ents s) in
-                let s2 := w_ents s1 (s_ents s ++ [mkE q tx None false false]) in
-                let s3 := w_map s2 (Some (insert q e' m)) in
-                Some (set_thr s3 t (set_pc th (P9 e')), None)
-              end
-            end else None
-    (* conn.PrepareContext(ctx, query): call *)
-    | P9 e => if tau then
-              let s1 := w_ghost s (s_calls s ++ [(q, tx)]) (s_fails s) (s_evicts s) (s_upg s)
-                                (s_cuts s) (s_stolen s) (s_everclosed s) in
-              Some (set_thr s1 t (set_pc th (P9w e)), Some (VPrepCall t q tx))
-              else None
-    (* conn.PrepareContext: return *)
-    | P9w e =>
-      match c with
-      | CPrepOk =>
-        let st := s_nstmt s in
-        let s1 := w_drv s (S st) (s_prep s ++ [(st, q, tx)]) (s_closed s) in
-        Some (set_thr s1 t (set_pc th (P10 e st)), Some (VPrepRet t true))
-      | CPrepFail =>
-        let en := ent s e in
-        let s1 := set_ent s e (mkE (e_q en) (e_tx en) (e_stmt en) true (e_done en)) in
-        let s2 := w_ghost s1 (s_calls s) (s_fails s ++ [q]) (s_evicts s) (s_upg s)
-                          (s_cuts s) (s_stolen s) (s_everclosed s) in
-        Some (set_thr s2 t (set_pc th (P11 e)), Some (VPrepRet t false))
-      | _ => None
-      end
-    (* db.Mux.Lock(); cacheStmt.Stmt = stmt; db.Mux.Unlock() *)
-    | P10 e st => if tau then if lock_free s then Some (set_thr (w_lock s (Some t) 0) t (set_pc th (P10b e st)), None)
-                  else None else None
-    | P10b e st => if tau then
-                   let en := ent s e in
-                   let s1 := set_ent (w_lock s None (s_r s)) e (mkE (e_q en) (e_tx en) (Some st) (e_err en) (e_done en)) in
-                   Some (set_thr s1 t (set_pc th (P10c e st)), None)
-                   else None
-    (* deferred close(cacheStmt.prepared); return cacheStmt *)
-    | P10c e st => if tau then
-                   let en := ent s e in
-                   let s1 := set_ent s e (mkE (e_q en) (e_tx en) (e_stmt en) (e_err en) true) in
-                   Some (set_thr s1 t (set_pc th (X0 st)), None)
-                   else None
-    (* cacheStmt.prepareErr = err; db.Mux.Lock(); delete(db.Stmts, query); db.Mux.Unlock() *)
-    | P11 e => if tau then if lock_free s then Some (set_thr (w_lock s (Some t) 0) t (set_pc th (P11b e)), None)
-               else None else None
-    | P11b e => if tau then
-                let s1 := w_lock s None (s_r s) in
-                let theft := match mlookup (s_map s) q with Some e' => negb (e' =? e) | None => false end in
-                let s2 := w_map s1 (option_map (remove_key q) (s_map s)) in
-                let s3 := w_ghost s2 (s_calls s) (s_fails s) (s_evicts s) (s_upg s)
-                                  (s_cuts s) (s_stolen s || theft) (s_everclosed s) in
-                Some (set_thr s3 t (set_pc th (P11c e)), None)
-                else None
-    | P11c e => if tau then
-                let en := ent s e in
-                let s1 := set_ent s e (mkE (e_q en) (e_tx en) (e_stmt en) (e_err en) true) in
-                fin s1 (perr RErrPrep)
-                else None
-    (* stmt.ExecContext / tx.Tx.StmtContext(ctx, stmt.Stmt).ExecContext: call *)
-    | X0 st => if tau then
-               if negb tx && memb st (s_closed s) then fin s RErrClosed
-               else Some (set_thr s t (set_pc th (X1 st)), Some (VExecCall t))
-               else None
-    (* the driver returns *)
-    | X1 st =>
-      match c with
-      | CExecOk | CExecErr | CExecBad => Some (set_thr s t (set_pc th (X1r st c)), Some (VExecRet t c))
-      | _ => None
-      end
-    | X1r st o => if tau then
-                  match o with
-                  | CExecBad => if cur_evict th then go (X2 st) else fin s RErrBad
-                  | CExecErr => fin s RErrOther
-                  | _ => fin s ROk
-                  end else None
-    (* errors.Is(err, driver.ErrBadConn): db.Mux.Lock(); defer Unlock; go stmt.Close(); delete(db.Stmts, query) *)
-    | X2 st => if tau then if lock_free s then Some (set_thr (w_lock s (Some t) 0) t (set_pc th (X2b st)), None)
-               else None else None
-    | X2b st => if tau then
-                let s1 := w_lock s None (s_r s) in
-                let theft := match mlookup (s_map s) q with
-                             | Some e' => negb (option_eqb Nat.eqb (e_stmt (ent s e')) (Some st))
-                             | None => false end in
-                let s2 := w_map s1 (option_map (remove_key q) (s_map s)) in
-                let s3 := w_ghost s2 (s_calls s) (s_fails s) (s_evicts s ++ [q]) (s_upg s)
-                                  (s_cuts s) (s_stolen s || theft) (s_everclosed s) in
-                let s4 := spawn (set_thr s3 t (set_pc th (Ret RErrBad))) [mkT (D0 st) [] []] in
-                Some (s4, None)
-                else None
-    (* Reset: Lock; closer per entry; Stmts = make(map); Unlock *)
-    | R0 => if tau then if lock_free s then Some (set_thr (w_lock s (Some t) 0) t (set_pc th R1), None)
-            else None else None
-    | R1 => if tau then
-            let s1 := w_lock s None (s_r s) in
-            let cl := match s_map s with Some m => map closer_of m | None => [] end in
-            let s2 := w_map s1 (Some []) in
-            let s3 := w_ghost s2 (s_calls s) (s_fails s) (s_evicts s) (s_upg s)
-                              (S (s_cuts s)) (s_stolen s) (s_everclosed s) in
-            Some (spawn (set_thr s3 t (set_pc th (Ret ROk))) cl, None)
-            else None
-    (* Close: Lock; closer per entry; Stmts = nil; Unlock *)
-    | K0 => if tau then if lock_free s then Some (set_thr (w_lock s (Some t) 0) t (set_pc th K1), None)
-            else None else None
-    | K1 => if tau then
-            let s1 := w_lock s None (s_r s) in
-            let cl := match s_map s with Some m => map closer_of m | None => [] end in
-            let s2 := w_map s1 None in
-            let s3 := w_ghost s2 (s_calls s) (s_fails s) (s_evicts s) (s_upg s)
-                              (S (s_cuts s)) (s_stolen s) true in
-            Some (spawn (set_thr s3 t (set_pc th (Ret ROk))) cl, None)
-            else None
-    (* closer goroutine: <-s.prepared; if s.Stmt != nil { s.Close() } *)
-    | C0 e => if tau then if e_done (ent s e) then go (C1 e) else None else None
-    | C1 e => if tau then
-              match e_stmt (ent s e) with
-              | Some st => Some (set_thr (w_drv s (s_nstmt s) (s_prep s) (s_closed s ++ [st])) t (set_pc th Idle), None)
-              | None => go Idle
-              end else None
-    (* go stmt.Close() *)
-    | D0 st => if tau then
-               Some (set_thr (w_drv s (s_nstmt s) (s_prep s) (s_closed s ++ [st])) t (set_pc th Idle), None)
-               else None
-    (* return to the caller *)
-    | Ret r => if tau then Some (set_thr s t (finish th r), Some (VEnd t r)) else None
-    end
+  | Some th => step_th s t th c
   end.
 
 Definition step (s : state) (t : nat) (c : choice) : option state :=
